@@ -491,6 +491,7 @@ func runC12(c *Ctx) {
 	runC12Round3(c)
 	runC12Sanitize(c)
 	runC12Round4(c)
+	runC12PtrString(c)
 }
 
 func guardedNilValue(b *ssa.BasicBlock, v ssa.Value) bool {
